@@ -14,4 +14,3 @@ package openapiv2
 //@   opt inline none
 //@   opt loopframes none
 //@   property C09
-//@   modifies all
